@@ -214,7 +214,7 @@ func ChildMain(p *Prop, tier string, seed uint64, k, w, n int, dir string, only 
 		// stride: special case families sit at regular index intervals and would
 		// otherwise all land on the same child
 		for i := 0; i < n; i++ {
-			if int(Mix(uint64(i), 0x5eed)%uint64(w)) == k {
+			if int(Mix(uint64(i), 0x5eed)%uint64(w)) == k && sampled(i) {
 				runOne(i)
 			}
 		}
@@ -457,6 +457,10 @@ func ParentMain(p *Prop, tier, verifDir, outDir string) int {
 	}
 	dwg.Wait()
 	run.Extra["child_output_bytes"] = outBytes
+	covDir := filepath.Join(work, "cov")
+	if coverExe := os.Getenv("VERIF_COVER_EXE"); coverExe != "" {
+		covDir = runCoverPhase(p, coverExe, tier, seed, n, w, work, budget, run, addViol)
+	}
 	if raceExe := os.Getenv("VERIF_RACE_EXE"); raceExe != "" && !p.NoPar {
 		runParPhase(p, raceExe, tier, seed, n, work, run, addViol)
 	}
@@ -540,7 +544,7 @@ func ParentMain(p *Prop, tier, verifDir, outDir string) int {
 	cov["slowest_case_index"] = slowestIdx
 	cov["case_budget_s"] = budget.Seconds()
 	if len(p.Files) > 0 {
-		if lc := libraryCoverage(filepath.Join(work, "cov"), p.Files); lc != nil {
+		if lc := libraryCoverage(covDir, p.Files); lc != nil {
 			cov["library_blocks"] = lc
 		}
 	}
